@@ -446,6 +446,37 @@ func checkC17(c *Ctx) {
 			all = append(all, faultObs{Op: "skip", ExpectedCalls: -1, TreeSame: true, RetrySame: true})
 		}
 	}
+	// hand-built files: no parser and no decorator made these trees, so nothing has normalised the paths
+	// on their identifiers (a vendored path taken from go/types, a path with a version element, the same
+	// package under two spellings) and the nodes carry the minimal fields only
+	hbNames := map[string]string{"fmt": "fmt", "example.com/app/vendor/github.com/pkg/errors": "errors", "github.com/pkg/errors": "errors",
+		"example.com/m/v2": "m", "vendor/golang.org/x/net/idna": "idna", "golang.org/x/net/idna": "idna"}
+	for hi, paths := range [][]string{
+		{"fmt", "example.com/app/vendor/github.com/pkg/errors"},
+		{"example.com/app/vendor/github.com/pkg/errors", "fmt"},
+		{"vendor/golang.org/x/net/idna", "example.com/m/v2", "fmt"},
+		{"example.com/app/vendor/github.com/pkg/errors", "example.com/m/v2", "vendor/golang.org/x/net/idna"},
+	} {
+		paths := paths
+		build := func() (*dst.File, map[string]string) {
+			f := &dst.File{Name: dst.NewIdent("main")}
+			var stmts []dst.Stmt
+			for i, p := range paths {
+				stmts = append(stmts, &dst.ExprStmt{X: &dst.CallExpr{Fun: &dst.Ident{Name: fmt.Sprintf("F%d", i), Path: p}}})
+			}
+			f.Decls = append(f.Decls, &dst.FuncDecl{Name: dst.NewIdent("main"), Type: &dst.FuncType{}, Body: &dst.BlockStmt{List: stmts}})
+			return f, nil
+		}
+		obs := faultsRestore(build, hbNames, "main", len(paths))
+		if len(obs) == 0 {
+			c.Infra(fmt.Sprintf("hand-built file %d does not restore without failures", hi))
+			return
+		}
+		for _, o := range obs {
+			all = append(all, o)
+			keys = append(keys, fmt.Sprintf("restore|hand-built-%d|fail@%d", hi, o.FailAt))
+		}
+	}
 	// corpus files: decorate with goast, restore with failing name resolver; decorate with failing resolvers
 	files := corpus(c, map[bool]int{true: 25, false: 300}[c.Quick()])
 	for _, f := range files {
